@@ -1,1 +1,115 @@
-// authorisation recording / replay helpers
+//! Authorisation recording / substitution / replay (DESIGN §1.5).
+//!
+//! `record` runs a call with every authorisation mocked and returns, as XDR (env-independent),
+//! the invocation tree each address had to authorise. `install` makes exactly the given
+//! (address, tree) pairs available in another Env, where every other `require_auth` fails.
+
+use soroban_sdk::testutils::{AuthorizedFunction, AuthorizedInvocation};
+use soroban_sdk::xdr::{
+    InvokeContractArgs, ScAddress, ScVal, SorobanAddressCredentials, SorobanAuthorizationEntry, SorobanAuthorizedFunction,
+    SorobanAuthorizedInvocation, SorobanCredentials,
+};
+use soroban_sdk::{contract, contractimpl, Address, Env, TryFromVal, Val};
+use std::cell::Cell;
+
+/// Account contract that accepts any signature: stands for "this address signed the entry".
+#[contract]
+pub struct AlwaysOkAccount;
+
+#[contractimpl]
+impl AlwaysOkAccount {
+    #[allow(non_snake_case)]
+    pub fn __check_auth(_signature_payload: Val, _signatures: Val, _auth_context: Val) {}
+}
+
+#[derive(Clone, Debug, PartialEq, Eq)]
+pub struct Rec {
+    pub address: ScAddress,
+    pub tree: SorobanAuthorizedInvocation,
+}
+
+fn inv_to_xdr(env: &Env, inv: &AuthorizedInvocation) -> SorobanAuthorizedInvocation {
+    let function = match &inv.function {
+        AuthorizedFunction::Contract((addr, name, args)) => {
+            let args: Vec<ScVal> = args.iter().map(|v| ScVal::try_from_val(env, &v).unwrap()).collect();
+            SorobanAuthorizedFunction::ContractFn(InvokeContractArgs {
+                contract_address: ScAddress::try_from(addr).unwrap(),
+                function_name: name.to_string().as_str().try_into().unwrap(),
+                args: args.try_into().unwrap(),
+            })
+        }
+        AuthorizedFunction::CreateContractHostFn(a) => SorobanAuthorizedFunction::CreateContractHostFn(a.clone()),
+        AuthorizedFunction::CreateContractV2HostFn(a) => SorobanAuthorizedFunction::CreateContractV2HostFn(a.clone()),
+    };
+    let subs: Vec<SorobanAuthorizedInvocation> = inv.sub_invocations.iter().map(|s| inv_to_xdr(env, s)).collect();
+    SorobanAuthorizedInvocation { function, sub_invocations: subs.try_into().unwrap() }
+}
+
+/// Run `f` with all authorisations mocked (non-root ones included) and return what was required.
+pub fn record<R>(env: &Env, f: impl FnOnce() -> R) -> (R, Vec<Rec>) {
+    env.mock_all_auths_allowing_non_root_auth();
+    let r = f();
+    let recs = env
+        .auths()
+        .iter()
+        .map(|(a, inv)| Rec { address: ScAddress::try_from(a).unwrap(), tree: inv_to_xdr(env, inv) })
+        .collect();
+    (r, recs)
+}
+
+thread_local! {
+    static NONCE: Cell<i64> = const { Cell::new(1) };
+}
+
+fn has_instance(env: &Env, a: &Address) -> bool {
+    crate::world::has_instance(env, a)
+}
+
+/// Make exactly these (authoriser, tree) pairs available; everything else is unauthorised.
+/// Registers an accept-all account contract for authorisers that are not contracts yet
+/// (harness bookkeeping; call this *before* taking "before" snapshots).
+pub fn install(env: &Env, entries: &[(Address, SorobanAuthorizedInvocation)]) {
+    let seq = env.ledger().sequence();
+    let mut v = vec![];
+    for (who, tree) in entries {
+        if !has_instance(env, who) {
+            env.register_at(who, AlwaysOkAccount, ());
+        }
+        let nonce = NONCE.with(|n| {
+            let x = n.get();
+            n.set(x + 1);
+            x
+        });
+        v.push(SorobanAuthorizationEntry {
+            credentials: SorobanCredentials::Address(SorobanAddressCredentials {
+                address: ScAddress::try_from(who).unwrap(),
+                nonce,
+                signature_expiration_ledger: seq + 1000,
+                signature: ScVal::Void,
+            }),
+            root_invocation: tree.clone(),
+        });
+    }
+    env.set_auths(&v);
+}
+
+pub fn sc_to_address(env: &Env, a: &ScAddress) -> Address {
+    Address::try_from_val(env, a).unwrap()
+}
+
+/// trees recorded for `holder`, to be signed by `principal` instead
+pub fn readdress(env: &Env, recs: &[Rec], holder: &Address, principal: &Address) -> Vec<(Address, SorobanAuthorizedInvocation)> {
+    let h = ScAddress::try_from(holder).unwrap();
+    let _ = env;
+    recs.iter().filter(|r| r.address == h).map(|r| (principal.clone(), r.tree.clone())).collect()
+}
+
+pub fn authorisers(recs: &[Rec]) -> Vec<ScAddress> {
+    let mut v: Vec<ScAddress> = vec![];
+    for r in recs {
+        if !v.contains(&r.address) {
+            v.push(r.address.clone());
+        }
+    }
+    v
+}
